@@ -1152,6 +1152,9 @@ def m_iter_adapt(ctx):
     if op == 'map':
         o = Obj('Map', kind='mapiter'); o.attrs['inner'] = it; o.attrs['f'] = ctx.args[1]
         return [(None, o)]
+    if op == 'filter_map':
+        o = Obj('FilterMap', kind='mapiter'); o.attrs['inner'] = it; o.attrs['f'] = ctx.args[1]; o.attrs['filter'] = True
+        return [(None, o)]
     if op == 'rev' and it.kind == 'iter':
         it.attrs['rev'] = not it.attrs.get('rev', False); return [(None, it)]
     if op in ('cloned', 'copied') and it.kind == 'iter':
@@ -1201,8 +1204,10 @@ def m_iter_consume(ctx):
     if it.kind == 'mapiter':
         # evaluate the map closure element by element via continuation, then re-dispatch on the materialised list
         inner = it.attrs['inner']
+        if inner.kind == 'mapiter':
+            raise MirError('nested lazy iterator adaptors')
         xs = drain_iter(ex, st, inner)
-        c = Cont('mapcollect', pending=xs, done=[], f=it.attrs['f'], op=op, callee=ctx.callee, args=ctx.args[1:], dest=ctx.dest, nxt=ctx.nxt, ret_ty=ctx.ret_ty)
+        c = Cont('mapcollect', pending=xs, done=[], f=it.attrs['f'], op=op, callee=ctx.callee, args=ctx.args[1:], dest=ctx.dest, nxt=ctx.nxt, ret_ty=ctx.ret_ty, filter=bool(it.attrs.get('filter')))
         return _mapcollect_step(ex, st, c, ctx.work)
     xs = drain_iter(ex, st, it)
     return consume_list(ctx, op, xs, ctx.args[1:], ctx.ret_ty, ctx.dest, ctx.nxt)
@@ -1220,7 +1225,13 @@ def _mapcollect_step(ex, st, c, work):
 
 
 def _resume_mapcollect(ex, st, cont, rv, work):
-    cont.data['done'].append(rv)
+    if cont.data.get('filter'):
+        if not isinstance(rv, Obj) or rv.discr not in ('Some', 'None'):
+            raise MirError('filter_map closure returned an Option with a symbolic variant')
+        if rv.discr == 'Some':
+            cont.data['done'].append(rv.fields[('Some', 0)])
+    else:
+        cont.data['done'].append(rv)
     r = _mapcollect_step(ex, st, cont, work)
     return 'model', r
 
@@ -1653,3 +1664,32 @@ def m_vec_extend(ctx):
         raise MirError(f'Vec::extend from unshaped source {src!r}')
     v.attrs['items'].extend(items)
     return [(None, ())]
+
+
+@model(r'^Box::<\[.*; \d+\]>::new_uninit$')
+def m_box_new_uninit(ctx):
+    """`vec![a, b]` lowering: Box::<[T; N]>::new_uninit(), a raw write of the array through the box pointer, box_assume_init_into_vec_unsafe"""
+    holder = Obj('MaybeUninit-holder', kind='cell'); holder.fields[('*', 0)] = Obj('std::mem::MaybeUninit')
+    ptr = Ref(('field', holder, ('*', 0, 'std::mem::MaybeUninit')))
+    nn = Obj('std::ptr::NonNull'); nn.fields[(None, 0)] = ptr
+    un = Obj('std::ptr::Unique'); un.fields[(None, 0)] = ptr
+    b = Obj('Box<MaybeUninit>'); b.fields[(None, 0)] = un; b.attrs['uninit_holder'] = holder
+    return [(None, b)]
+
+
+@model(r'^std::boxed::box_assume_init_into_vec_unsafe::<')
+def m_box_assume_init_into_vec(ctx):
+    ex, st = ctx.ex, ctx.st
+    b = ex.deref_val(st, ctx.args[0])
+    holder = b.attrs.get('uninit_holder') if isinstance(b, Obj) else None
+    if holder is None:
+        raise MirError('box_assume_init_into_vec_unsafe on an unknown box')
+    mu = holder.fields[('*', 0)]
+    try:
+        arr = mu.fields[(None, 1)].fields[(None, 0)].fields[(None, 0)]
+    except (KeyError, AttributeError):
+        raise MirError('uninitialised box turned into a Vec')
+    arr = ex.deref_val(st, arr)
+    if not isinstance(arr, Obj) or 'items' not in arr.attrs:
+        raise MirError(f'box contents are not an array: {arr!r}')
+    return [(None, new_vec(ctx.ret_ty, list(arr.attrs['items'])))]
